@@ -104,6 +104,7 @@ impl World for W1A {
             ignore_path_and_query_case: rng.chance(1, 3),
             always_match_any_host: rng.coin(),
             ignore_marketing_query_params: rng.coin(),
+            marketing_list: crate::w1::Cfg::gen_marketing_list(rng),
         };
         let swarm = Swarm::new(rng);
         let rg = RuleGen::new(rng);
